@@ -726,3 +726,50 @@ class DescConsistency(UperBase):
 
     def tag(self, req, ans):
         return "desc:" + self.req_name(req).split("::")[0]
+
+
+class CharsetTable(runner.Stream):
+    """`Charset::is_valid` for every Unicode code point and the five charsets, exhaustively;
+    the oracle has the alphabets of X.680 41 (NumericString: space and digits; PrintableString:
+    A-Z a-z 0-9 space ' ( ) + , - . / : = ?; IA5String: 0..127; VisibleString: 32..126)"""
+    name = "charset"
+    prefixes = ["uper"]
+    exhaustive = True
+    CH = 4096
+
+    def gen(self, rng, tier):
+        reqs = []
+        for cs in ("utf8", "ia5", "num", "print", "vis"):
+            for lo in range(0, 0x110000, self.CH):
+                reqs.append(f"uper charset {cs} {lo} {lo + self.CH}")
+        return reqs
+
+    @staticmethod
+    def valid(cs, cp):
+        if cs == "utf8":
+            return True
+        if cs == "ia5":
+            return cp <= 127
+        if cs == "vis":
+            return 32 <= cp <= 126
+        if cs == "num":
+            return cp == 32 or 48 <= cp <= 57
+        c = chr(cp)
+        return cp < 128 and (c.isalnum() or c in " '()+,-./:=?")
+
+    def oracle(self, req, ans):
+        t = req.split(" ")
+        cs, lo, hi = t[2], int(t[3]), int(t[4])
+        if not ans.startswith("ok ") or len(ans) - 3 != hi - lo:
+            return "malformed answer"
+        for i, ch in enumerate(ans[3:]):
+            cp = lo + i
+            if 0xD800 <= cp < 0xE000:
+                continue
+            want = "1" if self.valid(cs, cp) else "0"
+            if ch != want:
+                return f"{cs}: code point U+{cp:04X} is {'accepted' if ch == '1' else 'rejected'} but is {'not ' if want == '0' else ''}in the alphabet"
+        return None
+
+    def tag(self, req, ans):
+        return "charset:" + req.split(" ")[2]
